@@ -230,8 +230,21 @@ ShellCommand::processDependencyInfoDiscoveredDependencies(BuildSystem& system,
       system.getDelegate().commandFoundDiscoveredDependency(command, path, DiscoveredDependencyKind::Output);
     }
     virtual void actOnInput(StringRef path) override {
-      ti.discoveredDependency(BuildKey::makeNode(path).toData());
-      system.getDelegate().commandFoundDiscoveredDependency(command, path, DiscoveredDependencyKind::Input);
+      if (llvm::sys::path::is_absolute(path)) {
+        ti.discoveredDependency(BuildKey::makeNode(path).toData());
+        system.getDelegate().commandFoundDiscoveredDependency(command, path, DiscoveredDependencyKind::Input);
+        return;
+      }
+
+      // As for Makefile-style dependencies, a relative path is in relation to
+      // the command's working directory (or the current working directory
+      // when none has been set).
+      SmallString<PATH_MAX> absPath = StringRef(command->workingDirectory);
+      llvm::sys::path::append(absPath, path);
+      llvm::sys::fs::make_absolute(absPath);
+
+      ti.discoveredDependency(BuildKey::makeNode(absPath).toData());
+      system.getDelegate().commandFoundDiscoveredDependency(command, absPath, DiscoveredDependencyKind::Input);
     }
   };
 
